@@ -34,7 +34,7 @@ Definition w_field_of (m : w_msg) (mv : w_mval) (name : w_str) : option w_val :=
   end.
 
 (* The field checks of the four handlers of teos/src/api/http.rs (hand-modelled, validated by the
-   correspondence run): `x.is_empty()` -> EMPTY_FIELD, `x.len() != N` -> WRONG_FIELD_SIZE,
+   correspondence run): `x.is_empty()` -> EMPTY_FIELD (user_id, locator, encrypted_blob, signature), `x.len() != N` -> WRONG_FIELD_SIZE,
    `appointment: None` -> MISSING_FIELD; None = the request is forwarded to the internal API. *)
 Definition w_check_sized (v : option w_val) (n : Z) : option Z :=
   match v with
@@ -47,11 +47,17 @@ Definition w_check_nonempty_str (v : option w_val) : option Z :=
   | Some (WVStr []) => Some Consts.ERR_EMPTY_FIELD
   | _ => None
   end.
+Definition w_check_nonempty_bytes (v : option w_val) : option Z :=
+  match v with
+  | Some (WVBytes []) => Some Consts.ERR_EMPTY_FIELD
+  | _ => None
+  end.
 Definition w_first_err (a b : option Z) : option Z := match a with Some x => Some x | None => b end.
 
 (* names, already evaluated to bytes (no Coq `string` value survives into the extracted model) *)
 Definition w_n_user_id : w_str := Eval vm_compute in w_s2b "user_id".
 Definition w_n_locator : w_str := Eval vm_compute in w_s2b "locator".
+Definition w_n_encrypted_blob : w_str := Eval vm_compute in w_s2b "encrypted_blob".
 Definition w_n_signature : w_str := Eval vm_compute in w_s2b "signature".
 Definition w_n_appointment : w_str := Eval vm_compute in w_s2b "appointment".
 Definition w_p_register : w_str := Eval vm_compute in w_s2b "/register".
@@ -67,7 +73,9 @@ Definition w_handler_check (e : w_endpoint_spec) (req : w_mval) : option Z :=
       (match w_field_of m req w_n_appointment with
        | Some (WVSome (WMVStruct avs)) =>
          match m with
-         | WMStruct (WFCons _ (KOptMsg am) _) => w_check_sized (w_field_of am (WMVStruct avs) w_n_locator) Consts.LOCATOR_LEN
+         | WMStruct (WFCons _ (KOptMsg am) _) =>
+           w_first_err (w_check_sized (w_field_of am (WMVStruct avs) w_n_locator) Consts.LOCATOR_LEN)
+                       (w_check_nonempty_bytes (w_field_of am (WMVStruct avs) w_n_encrypted_blob))
          | _ => None
          end
        | _ => Some Consts.ERR_MISSING_FIELD
@@ -209,6 +217,7 @@ Definition wire_dec : w_msg -> w_json -> option w_mval := w_of_json.
 Definition wire_typed : w_msg -> w_mval -> bool := w_typedb.
 Definition wire_print : w_json -> w_str := w_json_print.
 Definition wire_doc_enc : w_msg -> w_mval -> w_json := w_doc_to_json.
+Definition wire_doc_typed (m : w_msg) (v : w_mval) : bool := w_typed_msgb WDoc_STATUS m v.
 Definition wire_doc_endpoints : list (w_str * w_msg * w_msg * Z) := WDoc_ENDPOINTS.
 Definition wire_doc_api_error : w_msg := WDoc_ApiError.
 Definition wire_tower_api_error : w_msg := WireSpec.W_TowerApiError.
